@@ -3,7 +3,7 @@
 From QV Require Import Base.ListX Model.MsgWriter Spec.NameRepr Spec.MsgWriterS Spec.MsgWriterAbsS
      Proofs.NameWireP Proofs.MsgWriterP Proofs.MsgWriterScanP Proofs.MsgWriterNameP Proofs.MsgWriterInvP
      Proofs.MsgWriterClosP Proofs.MsgWriterNameSP Proofs.MsgWriterLayP Proofs.MsgWriterOpP
-     Proofs.MsgWriterStepP Proofs.MsgWriterMsgP Proofs.MsgWriterDecP Proofs.MsgWriterHdrP.
+     Proofs.MsgWriterStepP Proofs.MsgWriterMsgP Proofs.MsgWriterDecP Proofs.MsgWriterHdrP Proofs.MsgWriterGetP.
 
 Local Open Scope nat_scope.
 
@@ -329,4 +329,30 @@ Proof.
   exists rr. split; auto.
   destruct (rr_final rr) as [[len b]|]; auto.
   destruct HR as [d [m [Hrun [Ed [_ [_ [_ [_ [_ [_ [_ [_ [_ [_ Hptr]]]]]]]]]]]]]]. eauto.
+Qed.
+
+(* the getters, at any point of a contract-obeying run, return the values denoted by the operations *)
+Theorem getters_run buf limit w0 ops d outs : writer_new buf limit = Ok w0 ->
+  run_contract (mkD w0 []) g0 ops -> Forall op_wf3 ops ->
+  run (mkD w0 []) ops = Ok (d, outs, true) ->
+  let A := areplay am0 ops outs in let H := hreplay ah0 ops outs in
+  getters (d_w d) =
+    Ok (expected_get H (N.of_nat (length (am_qs A))) (N.of_nat (length (am_an A))) (N.of_nat (length (am_ns A)))
+          (N.of_nat (length (am_ar A)) + (if h_edns H then 1 else 0) + (if h_tsig H then 1 else 0))%N).
+Proof.
+  intros H0 Hc Hw3 Hrun A H.
+  destruct (run_ok2 ops _ _ _ _ _ (AInv_new _ _ _ H0) (LInv_new _ _ _ H0) Hc)
+    as [d' [outs' [alive' [g [y [L [E [Hi [_ HF]]]]]]]]].
+  rewrite Hrun in E. inversion E; subst d' outs' alive'. fold A in HF.
+  pose proof (hrun ops (mkD w0 []) ah0 d outs true (writer_new_inv _ _ _ H0) (HInv_new _ _ _ H0) Hw3 Hrun) as Hh.
+  cbn [d_w] in Hh. fold H in Hh.
+  destruct HF as [_ _ _ Cq Ca Cn Cr _ Fe _].
+  rewrite (getters_spec (d_w d) H Hh); [|intros e Ee; apply (Fe e Ee)].
+  rewrite Cq, Ca, Cn, Cr.
+  destruct Hh as [_ _ _ _ _ He Ht].
+  assert (K1 : b2N (osome (w_edns (d_w d))) = (if h_edns H then 1 else 0)%N).
+  { rewrite He. destruct (h_edns H) as [[u up]|]; reflexivity. }
+  assert (K2 : b2N (osome (w_tsig (d_w d))) = (if h_tsig H then 1 else 0)%N).
+  { destruct (w_tsig (d_w d)); destruct (h_tsig H); try contradiction; reflexivity. }
+  rewrite K1, K2. reflexivity.
 Qed.
